@@ -308,6 +308,7 @@ fn transports(run: &mut Run) {
     admin.exec(&node, "use-db t tok");
     admin.exec(&node, "create-user bob bt");
     let _ = admin.disconnect(&node);
+    crate::world::set_fallback_ctx(Some(node.ctx.clone()));
     let tcp = crate::tcp::TcpServer::start(node.dbs.clone());
     let http = crate::http::HttpServer::start(node.dbs.clone());
     let ws = crate::ws::WsServer::start(node.dbs.clone());
@@ -483,5 +484,6 @@ fn transports(run: &mut Run) {
     run.cov("transport_sessions", json!(n));
     run.cov_add("states", n);
     run.cov_add("transitions", n);
+    crate::world::set_fallback_ctx(None);
     node.remove_dir();
 }
